@@ -59,9 +59,27 @@ def main():
         tests = [t for t in tests if os.path.exists(os.path.join(wt, t))]
         meta["test_files"] = tests
         if tests:
-            rc, out = sh(f"/venv/bin/python -m pytest -q -p no:cacheprovider -n 4 --timeout=600 {' '.join(tests)} 2>&1 | tail -5", cwd=wt, env=env, timeout=2400)
-            meta["tests_tail"] = out[-400:]
-            meta["tests_ok"] = (" failed" not in out.split("\n")[-2] if out.strip() else False) or "passed" in out and "failed" not in out
+            import xml.etree.ElementTree as ET
+
+            stable = set(json.load(open("/root/.vp/BASELINE.json"))["stable_pass"])
+            xml = f"/tmp/eval-{name}.junit.xml"
+            rc, out = sh(f"/venv/bin/python -m pytest -q -p no:cacheprovider -n 4 --timeout=600 --junitxml={xml} {' '.join(tests)} 2>&1 | tail -3", cwd=wt, env=env, timeout=2400)
+            meta["tests_tail"] = out[-300:]
+            failing = []
+            if os.path.exists(xml):
+                for tc in ET.parse(xml).getroot().iter("testcase"):
+                    if any(ch.tag in ("failure", "error") for ch in tc):
+                        n = f"{tc.get('classname')}::{tc.get('name')}"
+                        if n in stable:
+                            failing.append((n, tc.get("file") or tc.get("classname").replace(".", "/") + ".py", tc.get("name")))
+            still = []
+            for n, f, t in failing:  # load-induced timeouts: retry alone, serially
+                rc, out = sh(f"/venv/bin/python -m pytest -q -p no:cacheprovider --timeout=600 '{f}::{t}' 2>&1 | tail -2", cwd=wt, env=env, timeout=900)
+                if " passed" not in out or " failed" in out:
+                    still.append(n)
+            meta["stable_tests_failing_first_pass"] = [n for n, _, _ in failing]
+            meta["stable_tests_failing_after_retry"] = still
+            meta["tests_ok"] = not still
         results = {}
         for p in [pid] + also:
             t0 = time.time()
